@@ -4,11 +4,17 @@
 //!
 //! Everything runs under the REAL `spawner_task` on a paused tokio clock. The spawner is wrapped in
 //! the recording wrapper `w_spawn::Rec` (pure delegation), the harness plays the system.
+//!
+//! Mode `Nts` runs the real NTS single-server spawner against a scripted NTS-KE server on a loopback TCP
+//! port (`w_ntsked`: real TCP + TLS; virtual time stands still while a spawn attempt runs and moves only by
+//! the scripted per-exchange delays), and checks the same pacing rules plus: no respawn (not even a new key
+//! exchange) after a Demobilized removal, a new resolution + key exchange after an Unreachable removal.
 use std::net::{IpAddr, Ipv4Addr, SocketAddr};
 use std::time::Duration;
 
 use crate::engine::*;
 use crate::w_dns::{self, Answer};
+use crate::w_ntsked::{self, KeAnswer, KeDns, NDns, Reply};
 use crate::w_spawn::{Kind, LogEv, Rec, pacing_oracle};
 use ntp_proto::{ClockId, ProtocolVersion, SourceConfig};
 use ntpd::verif_hook::spawn_hook as sh;
@@ -31,6 +37,7 @@ pub enum Case {
     Mock(MockCase),
     Standard(StdCase),
     PoolTask(PoolTaskCase),
+    Nts(NtsCase),
 }
 
 #[derive(Debug, Clone, Copy, Serialize, Deserialize, PartialEq, Eq)]
@@ -338,18 +345,44 @@ fn to_answer(d: &Dns) -> Answer {
     }
 }
 
-struct Created {
+/// Number of spawn attempts of a single-server spawner that turned it from incomplete to complete. Each such
+/// attempt must have produced a source: a spawner that reports completion without one is never asked again
+/// (nothing can be removed that would reset it), which silently ends the "keeps attempting while incomplete" duty.
+fn completing_attempts(log: &[LogEv], initially_complete: bool) -> usize {
+    let mut complete = initially_complete;
+    let mut before = complete;
+    let mut n = 0;
+    for ev in log {
+        match *ev {
+            LogEv::TryStart { .. } => before = complete,
+            LogEv::TryEnd { complete: c, .. } => {
+                if c && !before {
+                    n += 1;
+                }
+                complete = c;
+            }
+            LogEv::Handled { complete: c, .. } => complete = c,
+        }
+    }
+    n
+}
+
+struct Created<A> {
     t: u64,
     addr: SocketAddr,
     dns: usize,
+    /// caller-defined observation taken when the system received the create event
+    aux: A,
 }
 
-struct Removal {
+struct Removal<A> {
     t_sent: u64,
     reason: u8,
     dns_at_send: usize,
     /// index of the removed source in `created`
     source: usize,
+    /// caller-defined observation taken when the removal notification was sent
+    aux_at_send: A,
 }
 
 enum Due {
@@ -359,10 +392,10 @@ enum Due {
 }
 
 /// what the scripted "system" observed while the real `spawner_task` ran
-struct Driven {
+struct Driven<A> {
     log: Vec<LogEv>,
-    created: Vec<Created>,
-    removals: Vec<Removal>,
+    created: Vec<Created<A>>,
+    removals: Vec<Removal<A>>,
     /// creations / removal notifications in the order the system processed them: (is_create, source index)
     timeline: Vec<(bool, usize)>,
     closed_at: u64,
@@ -372,7 +405,7 @@ struct Driven {
 /// Run `spawner` under the real `spawner_task` (paused clock) against a scripted system: the n-th created
 /// source is registered / removed as `reacts[n]` says, Idle notifications arrive at `idles`, the
 /// notification channel is closed after `run_ms`.
-async fn drive<S: sh::Spawner + Send + 'static>(
+async fn drive<S: sh::Spawner + Send + 'static, A>(
     make: impl FnOnce() -> S,
     host: &'static str,
     reacts: &[React],
@@ -380,7 +413,8 @@ async fn drive<S: sh::Spawner + Send + 'static>(
     start_jitter_us: u16,
     run_ms: u32,
     tag: &'static str,
-) -> Result<Driven, Outcome> {
+    probe: &dyn Fn() -> A,
+) -> Result<Driven<A>, Outcome> {
     let t0 = Instant::now();
     if start_jitter_us > 0 {
         tokio::time::advance(Duration::from_micros(start_jitter_us as u64)).await;
@@ -403,13 +437,13 @@ async fn drive<S: sh::Spawner + Send + 'static>(
     }
     let t_end = start + Duration::from_millis(run_ms as u64);
 
-    let mut created: Vec<Created> = Vec::new();
-    let mut removals: Vec<Removal> = Vec::new();
+    let mut created: Vec<Created<A>> = Vec::new();
+    let mut removals: Vec<Removal<A>> = Vec::new();
     let mut timeline: Vec<(bool, usize)> = Vec::new();
     let mut task_gone = false;
 
     let on_create = |ev: sh::SpawnEvent,
-                     created: &mut Vec<Created>,
+                     created: &mut Vec<Created<A>>,
                      timeline: &mut Vec<(bool, usize)>,
                      pending: &mut Vec<(Instant, u64, Due)>,
                      seq: &mut u64|
@@ -419,7 +453,7 @@ async fn drive<S: sh::Spawner + Send + 'static>(
             return Err(Outcome::fail(format!("{tag}/non-ntp-create"), "unexpected create parameters"));
         };
         let n = created.len();
-        created.push(Created { t: us(t0), addr: p.addr, dns: w_dns::calls(host) });
+        created.push(Created { t: us(t0), addr: p.addr, dns: w_dns::calls(host), aux: probe() });
         timeline.push((true, n));
         let id = p.id;
         let now = Instant::now();
@@ -454,7 +488,13 @@ async fn drive<S: sh::Spawner + Send + 'static>(
                 let ev = match due {
                     Due::Register(p) => sh::SystemEvent::SourceRegistered(p),
                     Due::Remove { id, reason: r, source } => {
-                        removals.push(Removal { t_sent: us(t0), reason: r % 3, dns_at_send: w_dns::calls(host), source });
+                        removals.push(Removal {
+                            t_sent: us(t0),
+                            reason: r % 3,
+                            dns_at_send: w_dns::calls(host),
+                            source,
+                            aux_at_send: probe(),
+                        });
                         timeline.push((false, source));
                         sh::SystemEvent::source_removed(id, reason(r))
                     }
@@ -513,7 +553,7 @@ async fn run_std(c: &StdCase) -> Outcome {
             SourceConfig::default(),
         )
     };
-    let d = match drive(make, HOST, &c.reacts, &c.idles, c.start_jitter_us, c.run_ms, "standard").await {
+    let d = match drive(make, HOST, &c.reacts, &c.idles, c.start_jitter_us, c.run_ms, "standard", &|| ()).await {
         Ok(d) => d,
         Err(o) => return o,
     };
@@ -523,6 +563,12 @@ async fn run_std(c: &StdCase) -> Outcome {
         Ok(st) => st,
         Err((sig, what)) => return Outcome::fail(format!("standard/{sig}"), what),
     };
+    if completing_attempts(&log, initially_complete) > created.len() {
+        return Outcome::fail(
+            "standard/complete-without-a-source",
+            format!("{} spawn attempts left the spawner complete but only {} sources were created", completing_attempts(&log, initially_complete), created.len()),
+        );
+    }
 
     // ---- removal reasons
     // k-th Handled(Removed) in the log belongs to the k-th removal sent (the channel is FIFO)
@@ -533,7 +579,7 @@ async fn run_std(c: &StdCase) -> Outcome {
         .map(|(i, _)| i)
         .collect();
     for (k, rm) in removals.iter().enumerate() {
-        let later_creates: Vec<&Created> = created.iter().skip(rm.source + 1).collect();
+        let later_creates: Vec<&Created<()>> = created.iter().skip(rm.source + 1).collect();
         match rm.reason {
             2 => {
                 labels.add("demobilized");
@@ -693,7 +739,7 @@ async fn run_pool(c: &PoolTaskCase) -> Outcome {
         ntp_version: ProtocolVersion::V4,
     };
     let make = || sh::PoolSpawner::new(cfg, SourceConfig::default());
-    let d = match drive(make, c35::HOST, &c.reacts, &c.idles, c.start_jitter_us, c.run_ms, "pool-task").await {
+    let d = match drive(make, c35::HOST, &c.reacts, &c.idles, c.start_jitter_us, c.run_ms, "pool-task", &|| ()).await {
         Ok(d) => d,
         Err(o) => return o,
     };
@@ -738,6 +784,252 @@ async fn run_pool(c: &PoolTaskCase) -> Outcome {
     Outcome::pass(st.attempts >= 2 && !d.removals.is_empty()).labels(labels.0)
 }
 
+
+// ---------------------------------------------------------------------------------------------
+// real NTS single-server spawner under the real task, against the scripted KE server of `w_ntsked`
+// (real TCP + TLS on loopback; virtual time stands still during spawn attempts, see `w_ntsked::Spin`)
+
+#[derive(Debug, Clone, Serialize, Deserialize)]
+pub struct NtsCase {
+    /// resolver answers for the KE host name
+    pub ke_dns: Vec<KeDns>,
+    /// answer of key exchange k is `ke[k % len]` (`delay_ms`: virtual time the exchange takes)
+    pub ke: Vec<KeAnswer>,
+    /// resolver answers for the NTP names the KE server hands out
+    pub hosts: Vec<Vec<NDns>>,
+    pub reacts: Vec<React>,
+    pub idles: Vec<u32>,
+    pub start_jitter_us: u16,
+    pub run_ms: u32,
+}
+
+fn nts_strategy(tier: Tier) -> impl Strategy<Value = NtsCase> {
+    let n = tier.pick(8usize, 16usize);
+    let react = (
+        prop::option::weighted(0.7, ms_strategy(1500)),
+        prop::option::weighted(0.9, (ms_strategy(2500), 0u8..3)),
+    )
+        .prop_map(|(reg_ms, rem)| React { reg_ms, rem });
+    (
+        super::c35::ke_dns_strategy(),
+        prop::collection::vec(super::c35::ke_answer_strategy(false, true), 1..5),
+        super::c35::hosts_strategy(false),
+        prop::collection::vec(react, 0..n),
+        prop::collection::vec(ms_strategy(3000), 0..5),
+        prop_oneof![2 => Just(0u16), 1 => 1u16..1000],
+        prop_oneof![1 => 0u32..3000, 3 => 3000u32..20_000],
+    )
+        .prop_map(|(ke_dns, ke, hosts, reacts, idles, start_jitter_us, run_ms)| NtsCase {
+            ke_dns,
+            ke,
+            hosts,
+            reacts,
+            idles,
+            start_jitter_us,
+            run_ms,
+        })
+}
+
+/// what the scripted system samples when it sees a create event / sends a removal
+#[derive(Debug, Clone, Default)]
+struct NtsAux {
+    /// TCP connections the KE server has accepted so far
+    accepted: usize,
+    /// resolver calls so far for NTP_NAMES[i]
+    name_calls: [usize; w_ntsked::NTP_NAMES.len()],
+}
+
+async fn run_nts(c: &NtsCase) -> Outcome {
+    let mut labels = Labels::default();
+    labels.add("nts");
+    w_dns::reset();
+    w_ntsked::script_dns(&c.ke_dns, &c.hosts);
+    let server = match w_ntsked::start(c.ke.clone(), false, Instant::now(), None).await {
+        Ok(s) => s,
+        Err(e) => {
+            eprintln!("INCONCLUSIVE: cannot start the loopback NTS-KE server: {e}");
+            std::process::exit(2);
+        }
+    };
+    let cfg = sh::NtsSourceConfig {
+        address: sh::NtsKeAddress(sh::normalized_address(w_ntsked::KE_HOST, server.port)),
+        enable_srv_resolution: false,
+        certificate_authorities: w_ntsked::test_cas(),
+        ntp_version: ProtocolVersion::V4,
+    };
+    let spawner = match sh::NtsSpawner::new(cfg, SourceConfig::default()) {
+        Ok(s) => w_ntsked::Spin { inner: s },
+        Err(e) => return Outcome::fail("nts/spawner-config-rejected", format!("NtsSpawner::new: {e}")),
+    };
+    let probe = || NtsAux {
+        accepted: server.accepted(),
+        name_calls: std::array::from_fn(|i| w_dns::calls(w_ntsked::NTP_NAMES[i])),
+    };
+    let d = match drive(move || spawner, w_ntsked::KE_HOST, &c.reacts, &c.idles, c.start_jitter_us, c.run_ms, "nts", &probe).await {
+        Ok(d) => d,
+        Err(o) => return o,
+    };
+    let Driven { log, created, removals, closed_at, initially_complete, .. } = d;
+    let exchanges = server.log();
+
+    // ---- pacing (virtual time; a spawn attempt takes exactly the scripted delays / timeouts)
+    let st = match pacing_oracle(&log, initially_complete, Some(closed_at)) {
+        Ok(st) => st,
+        Err((sig, what)) => return Outcome::fail(format!("nts/{sig}"), what),
+    };
+    if completing_attempts(&log, initially_complete) > created.len() {
+        return Outcome::fail(
+            "nts/complete-without-a-source",
+            format!("{} spawn attempts left the spawner complete but only {} sources were created", completing_attempts(&log, initially_complete), created.len()),
+        );
+    }
+
+    // ---- every source stems from the key exchange that was accepted last before it was created
+    for cr in &created {
+        let ok = cr.aux.accepted >= 1
+            && matches!(exchanges.get(cr.aux.accepted - 1).map(|e| &e.reply), Some(Reply::Responded { cookies, .. }) if *cookies > 0);
+        if !ok {
+            return Outcome::fail(
+                "nts/source-without-successful-key-exchange",
+                format!("source {} created at {} us, but the latest key exchange ({} accepted) did not deliver cookies", cr.addr, cr.t, cr.aux.accepted),
+            );
+        }
+    }
+
+    // ---- removal reasons
+    let handled_removed: Vec<usize> = log
+        .iter()
+        .enumerate()
+        .filter(|(_, e)| matches!(e, LogEv::Handled { kind: Kind::Removed, .. }))
+        .map(|(i, _)| i)
+        .collect();
+    for (k, rm) in removals.iter().enumerate() {
+        let later = created.get(rm.source + 1);
+        match rm.reason {
+            2 => {
+                labels.add("nts-demobilized");
+                // The statement's demobilisation clause is about the plain (non-NTS) single-server spawner. The NTS
+                // spawner of this tree starts a new key exchange after any removal; that is recorded, not judged.
+                if later.is_some() {
+                    labels.add("nts-new-exchange-after-demobilize (observed, outside the statement)");
+                }
+                let _ = (&handled_removed, k);
+            }
+            1 => {
+                labels.add("nts-unreachable");
+                if let Some(&hi) = handled_removed.get(k) {
+                    let next_end = log[hi..].iter().find_map(|e| match e {
+                        LogEv::TryEnd { dns, t, .. } => Some((*dns, *t)),
+                        _ => None,
+                    });
+                    if let Some((dns_after, t)) = next_end {
+                        labels.add("nts-attempt-after-unreachable");
+                        // the KE host name is resolved again by the next attempt
+                        if dns_after <= rm.dns_at_send {
+                            return Outcome::fail(
+                                "nts/no-lookup-after-unreachable",
+                                format!(
+                                    "Unreachable removal sent at {} us ({} lookups of the KE name so far); the next spawn attempt ended at \
+                                     {t} us without a new lookup",
+                                    rm.t_sent, rm.dns_at_send
+                                ),
+                            );
+                        }
+                    } else {
+                        let handled_t = match log[hi] {
+                            LogEv::Handled { t, .. } => t,
+                            _ => unreachable!(),
+                        };
+                        let prev_end = log[..hi].iter().rev().find_map(|e| match e {
+                            LogEv::TryEnd { t, .. } => Some(*t),
+                            _ => None,
+                        });
+                        let deadline = prev_end.map(|e| handled_t.max(e + crate::w_spawn::PERIOD_US)).unwrap_or(handled_t);
+                        if closed_at > deadline + crate::w_spawn::TOL_US {
+                            return Outcome::fail(
+                                "nts/no-attempt-after-unreachable",
+                                format!(
+                                    "Unreachable removal handled at {handled_t} us, previous attempt ended at {prev_end:?} us; no new key \
+                                     exchange was attempted although the task ran until {closed_at} us"
+                                ),
+                            );
+                        }
+                        labels.add("nts-run-ended-before-retry");
+                    }
+                }
+                if let Some(cr) = later {
+                    labels.add("nts-respawn-after-unreachable");
+                    // the replacement comes from a key exchange made after the removal ...
+                    let fresh_ke = cr.aux.accepted > rm.aux_at_send.accepted;
+                    // ... and its address from what that exchange named, resolved after the removal
+                    let fresh_addr = match exchanges.get(cr.aux.accepted.wrapping_sub(1)).map(|e| &e.reply) {
+                        Some(Reply::Responded { server: srv, port, .. }) => {
+                            let port_ok = cr.addr.port() == port.unwrap_or(123);
+                            let name = srv.clone().unwrap_or_else(|| w_ntsked::KE_HOST.to_string());
+                            let ip_ok = if let Ok(lit) = name.parse::<IpAddr>() {
+                                cr.addr.ip() == lit
+                            } else if name == w_ntsked::KE_HOST {
+                                // the KE name itself: resolved (at least) twice more since the removal
+                                cr.dns >= rm.dns_at_send + 2
+                                    && matches!(w_dns::answer_of_call(w_ntsked::KE_HOST, cr.dns - 1), Some(Answer::Addrs(a)) if a.contains(&cr.addr.ip()))
+                            } else {
+                                match w_ntsked::NTP_NAMES.iter().position(|n| *n == name) {
+                                    Some(i) => {
+                                        let calls = cr.aux.name_calls[i];
+                                        calls > rm.aux_at_send.name_calls[i]
+                                            && matches!(w_dns::answer_of_call(&name, calls - 1), Some(Answer::Addrs(a)) if a.contains(&cr.addr.ip()))
+                                    }
+                                    None => false,
+                                }
+                            };
+                            port_ok && ip_ok
+                        }
+                        _ => false,
+                    };
+                    if !fresh_ke || !fresh_addr {
+                        return Outcome::fail(
+                            "nts/respawn-after-unreachable-uses-stale-data",
+                            format!(
+                                "Unreachable removal at {} us with {} key exchanges; next source {} created at {} us with {} key exchanges \
+                                 (new exchange: {fresh_ke}, address from that exchange's fresh resolution: {fresh_addr})",
+                                rm.t_sent, rm.aux_at_send.accepted, cr.addr, cr.t, cr.aux.accepted
+                            ),
+                        );
+                    }
+                }
+            }
+            _ => {
+                labels.add("nts-network-issue");
+                labels.add_if(later.is_some(), "respawn-after-network-issue");
+            }
+        }
+    }
+
+    for ex in &exchanges {
+        match &ex.reply {
+            Reply::Responded { cookies: 0, .. } => labels.add("ke-no-cookies"),
+            Reply::Responded { .. } => labels.add("ke-responded"),
+            Reply::Error(_) => labels.add("ke-error-record"),
+            Reply::Stalled => labels.add("ke-stall"),
+            Reply::ClosedAfterRequest | Reply::DroppedTcp => labels.add("ke-connection-closed"),
+            Reply::HandshakeFailed | Reply::BadRequest | Reply::Pending => labels.add("ke-handshake-failed"),
+        }
+    }
+    labels.add_if(c.ke.iter().any(|a| matches!(a, KeAnswer::Ok { delay_ms, .. } if *delay_ms >= 1000)), "slow-exchange-scripted");
+    labels.add_if(created.len() >= 2, "nts-respawned");
+    labels.add_if(created.is_empty(), "nts-never-created");
+    labels.add_if(st.paced_retries > 0, "nts-paced-retry");
+    labels.add_if(st.immediate > 0, "nts-immediate-after-event");
+    labels.add_if(st.delayed_by_ticket > 0, "nts-event-delayed-by-ticket");
+    labels.add_if(
+        log.iter().any(|e| matches!(e, LogEv::TryEnd { complete: false, .. })),
+        "nts-failed-attempt",
+    );
+    let nontrivial = st.attempts >= 2 && !removals.is_empty() && handled_removed.len() >= 1 && !created.is_empty();
+    labels.add_if(nontrivial, "nts-nontrivial");
+    Outcome::pass(nontrivial).labels(labels.0)
+}
+
 // ---------------------------------------------------------------------------------------------
 
 impl Property for C36 {
@@ -747,23 +1039,32 @@ impl Property for C36 {
         spawner_task on a paused clock with a generated schedule of (sleep ms, sub-ms jitter, Registered|Removed(reason)|Idle|nothing) steps; \
         Standard: the real StandardSpawner with scripted DNS (address lists / NoName / Again per lookup) and a scripted system that registers/removes \
         the n-th created source after generated delays; PoolTask: the real PoolSpawner (count 1..=4, C35 DNS scripts) under the same scripted system, \
-        checked for pacing and for the C35 active-set invariants. NON-TRIVIAL = at least two spawn attempts were made and at least one system event was \
-        handled by the spawner (Standard: at least one removal)";
+        checked for pacing and for the C35 active-set invariants; Nts: the real NtsSpawner against a scripted loopback NTS-KE server (per exchange: \
+        server name / IP literal / none, port, 0..9 cookies, virtual delay 0..6 s, error record, close, TCP drop, stall beyond the 5 s exchange timeout; \
+        per-lookup DNS answers for the KE name and the four NTP names) under the same scripted system. NON-TRIVIAL = at least two spawn attempts were made \
+        and at least one system event was handled by the spawner (Standard/Nts: at least one removal; Nts: also at least one source was created)";
     const ASSUMPTIONS: &'static [&'static str] = &[
         "time is the paused tokio clock; it only moves by auto-advance to the next timer (so no timer fires late by more than the 1 ms timer granularity) plus generated sub-millisecond jitter; a wake-up is therefore < 2 ms late; tolerance for 'at that pace' is 5 ms",
         "spawner event handlers are pure bookkeeping (take no time), try_spawn may take time",
         "'at most once per period' is measured between the starts of consecutive try_spawn calls",
         "the system removes a source only after it was created, once, and registers it before it removes it",
         "scripted addresses are 127.0.0.x, for which the local UDP connect in resolve_single_ntp_server succeeds",
+        "Nts: real TCP/TLS on 127.0.0.1 under the paused clock; an always-ready task keeps tokio from auto-advancing the clock while try_spawn runs, so an attempt takes exactly the scripted virtual time (the code under test only reads the tokio clock)",
+        "Nts: enable-srv-resolution is off (the SRV path needs a real DNS server); the KE server is reached under the name `localhost` of the repo's test certificate; a source seen by the system stems from the TCP connection the KE server accepted last",
     ];
     const QUICK_CASES: u32 = 24_000;
     const THOROUGH_CASES: u32 = 200_000;
 
     fn strategy(tier: Tier) -> BoxedStrategy<Case> {
+        // debugging aid (sensitivity runs of one driver): VERIF_ONLY_MODE=nts
+        if std::env::var("VERIF_ONLY_MODE").ok().as_deref() == Some("nts") {
+            return nts_strategy(tier).prop_map(Case::Nts).boxed();
+        }
         prop_oneof![
             3 => mock_strategy(tier).prop_map(Case::Mock),
             3 => std_strategy(tier).prop_map(Case::Standard),
             2 => pool_task_strategy(tier).prop_map(Case::PoolTask),
+            2 => nts_strategy(tier).prop_map(Case::Nts),
         ]
         .boxed()
     }
@@ -810,6 +1111,41 @@ impl Property for C36 {
                 start_jitter_us: 0,
                 run_ms: 12_000,
             }),
+            // nts: unreachable -> new key exchange names another server; network issue; then demobilized
+            Case::Nts(NtsCase {
+                ke_dns: vec![KeDns::Listen],
+                ke: vec![
+                    KeAnswer::Ok { servers: vec![w_ntsked::Srv::Name(0)], port: None, cookies: 8, delay_ms: 0 },
+                    KeAnswer::Ok { servers: vec![w_ntsked::Srv::Name(1)], port: Some(4123), cookies: 8, delay_ms: 20 },
+                    KeAnswer::Ok { servers: vec![w_ntsked::Srv::Literal(4)], port: Some(123), cookies: 1, delay_ms: 0 },
+                ],
+                hosts: (0u8..4).map(|i| vec![NDns::Addrs(vec![i])]).collect(),
+                reacts: vec![
+                    React { reg_ms: Some(0), rem: Some((200, 1)) },
+                    React { reg_ms: Some(0), rem: Some((200, 0)) },
+                    React { reg_ms: Some(0), rem: Some((200, 2)) },
+                ],
+                idles: vec![],
+                start_jitter_us: 0,
+                run_ms: 10_000,
+            }),
+            // nts: key exchanges fail in every scripted way before one succeeds; slow exchanges
+            Case::Nts(NtsCase {
+                ke_dns: vec![KeDns::NoName, KeDns::Dead, KeDns::DeadThenListen, KeDns::Listen],
+                ke: vec![
+                    KeAnswer::DropTcp,
+                    KeAnswer::CloseAfterRequest,
+                    KeAnswer::ErrorRecord(1),
+                    KeAnswer::Stall,
+                    KeAnswer::Ok { servers: vec![w_ntsked::Srv::Name(2)], port: None, cookies: 0, delay_ms: 0 },
+                    KeAnswer::Ok { servers: vec![w_ntsked::Srv::Name(2)], port: None, cookies: 2, delay_ms: 1500 },
+                ],
+                hosts: (0u8..4).map(|i| vec![NDns::Addrs(vec![i])]).collect(),
+                reacts: vec![React { reg_ms: None, rem: Some((0, 1)) }, React { reg_ms: None, rem: Some((700, 2)) }],
+                idles: vec![500, 500],
+                start_jitter_us: 300,
+                run_ms: 40_000,
+            }),
         ]
     }
 
@@ -819,6 +1155,10 @@ impl Property for C36 {
             Case::Mock(c) => crate::rt::run_paused(run_mock(c)),
             Case::Standard(c) => crate::rt::run_paused(run_std(c)),
             Case::PoolTask(c) => crate::rt::run_paused(run_pool(c)),
+            Case::Nts(c) => {
+                w_ntsked::selftest();
+                crate::rt::run_paused(run_nts(c))
+            }
         }
     }
 }
